@@ -29,7 +29,7 @@ CASE_TIMEOUT = 600
 
 def plan (tier, seed):
     k = 1 if tier == 'quick' else 18
-    out  = [dict (kind = 'history', i = i, seed = seed) for i in range (70 * k)]
+    out  = [dict (kind = 'history', i = i, seed = seed) for i in range ((110 if tier == 'quick' else 70) * k)]
     out += [dict (kind = 'sweep',   i = i, seed = seed) for i in range (24 * k)]
     out += [dict (kind = 'sweep', i = 0, seed = seed, edge = [f0, inc, ks, ri]) for f0 in ((7.0, 14.1) if tier == 'quick' else (7.0, 14.1, 3.6, 21.3, 28.5))
             for inc in ((0.1, 0.04, 0.7) if tier == 'quick' else (0.1, 0.04, 0.7, 0.3, 0.01, 0.2)) for ks in (2, 3, 4, 5) for ri in (1, 2)]
